@@ -737,7 +737,8 @@ func main() {
 	nPlanJobs := len(jobs)
 	nBig := run.N(4, 8)
 	nMatrix := sg.NumMatrixLayouts + sg.NumTypeMatrixLayouts // defaults matrix, then the scalar type matrix
-	nExtra := nMatrix + 2*nBig
+	nNest := numNestJobs                                     // the nested-deletion towers (nest.go), after the matrices
+	nExtra := nMatrix + nNest + 2*nBig
 	if only >= len(plan) {
 		k := only - len(plan)
 		if k >= nExtra {
@@ -751,7 +752,7 @@ func main() {
 	importEvery := run.N(7, 24) // thorough: in.txt stays < 200 MB
 	saved := thread.Parallelism()
 	phases := []sg.Phase{
-		{N: nPlanJobs + nMatrix},
+		{N: nPlanJobs + nMatrix + nNest},
 		{N: nBig, Enter: func() { thread.SetParallelism(2) }, Leave: func() { thread.SetParallelism(saved) }},
 		{N: nBig, Enter: func() { thread.SetParallelism(3) }, Leave: func() { thread.SetParallelism(saved) }},
 	}
@@ -763,7 +764,9 @@ func main() {
 				return matrixJob(run, extraReplay(k), k, rn)
 			case k < nMatrix:
 				return typeMatrixJob(run, extraReplay(k), k-sg.NumMatrixLayouts, rn)
-			case k < nMatrix+nBig:
+			case k < nMatrix+nNest:
+				return nestJob(run, root.Fork(1<<43), extraReplay(k), k-nMatrix, rn)
+			case k < nMatrix+nNest+nBig:
 				return bigJob(run, root.Fork(1<<42), extraReplay(k), k, 2, rn)
 			}
 			return bigJob(run, root.Fork(1<<42), extraReplay(k), k, 3, rn)
